@@ -7,16 +7,16 @@ SIM_NOTE = ("Trusted base: the harness (scripted actor, client interpreter, trac
             "current_thread runtime (test-util) and proptest. Verdict = held on every generated scenario within the stated bounds; no absence proof.")
 
 CHECKS = {
- "C01": ("generated concurrent scenarios in a deterministic virtual-time simulation of the real rsactor code; history invariant over uniquely tagged messages (handled <=1; rejected never; accepted-before-stop/drop exactly once before on_stop; nothing pending on a live idle actor at quiescence)", "5/C01"),
- "C02": ("generated multi-sender scenarios on capacity 1-3 mailboxes; oracle: no inversion between real-time order of completed sends and handler-entry order; stop() position in the same order", "5/C02"),
+ "C01": ("generated concurrent scenarios in a deterministic virtual-time simulation of the real rsactor code; history invariant over uniquely tagged messages (handled <=1; rejected never; accepted-before-stop/drop exactly once before on_stop; nothing pending on a live idle actor at quiescence); plus real-thread race experiments (burst of senders released together, burst against an actor parked behind a gate, last handle dropped on another thread): accepted tells handled exactly once, rejected ones never", "5/C01"),
+ "C02": ("generated multi-sender scenarios on capacity 1-3 mailboxes; oracle: no inversion between real-time order of completed sends and handler-entry order; stop() position in the same order; plus real-thread experiments: threads stopping the same actor at the same instant and then sending (nothing sent after an own stop() returned Ok is handled; tells accepted before any stop() are), bursts of senders (per-sender order)", "5/C02"),
  "C03": ("generated concurrent askers against actors ending by every cause; oracle: reply value carries request id + per-handler nonce that must match the trace; ask_join vs scripted job outcome; no operation pending on an ended actor at quiescence; later sends fail at once; plus a generated real-thread experiment (4 lanes x streams of asks from 1-12 askers straddling the moment the actor ends by panic / stop / kill / last drop: every ask must return)", "5/C03"),
  "C04": ("generated termination causes x hook outcomes x phases; oracle: per-actor regular language over hook events, on_stop exactly-once rules, killed flag iff a kill signal could have been consumed", "5/C04"),
  "C05": ("same generator as C04; oracle: expected ActorResult recomputed from the hook trace alone (phase, killed, error tag, presence and state of the instance, panic payload) + accessor laws on every real result", "5/C05"),
  "C06": ("generated kill() instants with 0-64 queued messages in every actor phase; oracle: kill never fails/blocks, <=1 handler entry after kill returned, on_stop(killed=true) with no idle gap, result killed=true, queued asks fail (once the hook in progress finishes); plus a generated real-thread experiment (2-6 OS threads calling kill() on one actor at the same instant, kill() hammered while the actor is stopped and joined: every call Ok, JoinHandle resolves, killed=true)", "5/C06"),
- "C07": ("generated clone/drop/downgrade/upgrade/erase histories; model = number of strong handles the harness holds; oracle at quiescence: ended gracefully iff unreferenced or stopped; still serving otherwise (probe ask/tell); plus a real-thread supplement (multi_thread runtime, OS-thread clients): a referenced, never-stopped actor has not ended and does not refuse probes; after the epilogue - stop() on every other actor, every handle dropped - each idle actor has ended gracefully", "5/C07"),
+ "C07": ("generated clone/drop/downgrade/upgrade/erase histories; model = number of strong handles the harness holds; oracle at quiescence: ended gracefully iff unreferenced or stopped; still serving otherwise (probe ask/tell); plus a drop-race experiment (last handle of an actor with a re-arming on_run dropped on another thread: on_stop(false) exactly once, Completed{killed:false}) and a real-thread supplement (multi_thread runtime, OS-thread clients): a referenced, never-stopped actor has not ended and does not refuse probes; after the epilogue - stop() on every other actor, every handle dropped - each idle actor has ended gracefully", "5/C07"),
  "C08": ("generated on_run scripts with message arrivals around their await points; oracle at every on_run progress event: no accepted-unhandled message, no returned kill; Ok(true) re-arms, Ok(false) silences for good without ending the actor, Err -> on_stop(false)", "5/C08"),
- "C09": ("generated capacities/senders/gates; occupancy lower and upper bounds recomputed from the trace at every event and every quiescent instant (accepted <= capacity; a waiting sender implies a full mailbox); Send errors only on ending actors", "5/C09"),
- "C10": ("generated timeout values (0..40 ms odd/even, huge) vs natural completion instants; all comparisons in exact virtual milliseconds: Ok by the deadline at the completion instant, Timeout exactly at the deadline and only if nothing completed/failed strictly before, other failures at the instant of their cause; is_retryable on every error value seen", "5/C10"),
+ "C09": ("generated capacities/senders/gates; occupancy lower and upper bounds recomputed from the trace at every event and every quiescent instant (accepted <= capacity; a waiting sender implies a full mailbox); Send errors only on ending actors; plus a default-capacity race (child process per case, 2-8 threads calling set_default_mailbox_capacity at once: exactly one winner, spawn() uses its value) and the parked-burst experiment (tells accepted while the actor is parked <= free slots)", "5/C09"),
+ "C10": ("generated timeout values (0..40 ms odd/even, huge) vs natural completion instants; all comparisons in exact virtual milliseconds: Ok by the deadline at the completion instant, Timeout exactly at the deadline and only if nothing completed/failed strictly before, other failures at the instant of their cause; is_retryable on every error value seen; plus a real-thread parked-burst experiment: the actor sits in a handler behind a gate only the harness opens, 2-8 threads released together call the timeout variants; each must return within timeout + 10 s while the gate is still closed, Timeout never early, nothing but Ok / Timeout", "5/C10"),
  "C11": ("generated probes of identity/is_alive/upgrade through every derived handle kind at every lifecycle phase; oracle from the trace (phase known) and the harness-side strong-handle count; plus a generated id race (2-16 threads x 1-300 spawns) and a real-thread supplement (identity through every handle, is_alive before the actor began to end / after its JoinHandle resolved, upgrade while a strong handle is provably held throughout)", "5/C11"),
 }
 
@@ -33,7 +33,7 @@ CHECKS.update({
 RT_NOTE = ("Real-thread engine: the OS schedule is not owned or reproducible; only interleaving-sound oracles (logical stamps taken under one lock, multiset relations, "
            "one-sided wall-clock bounds with 10 s slack, 1 ms tolerance on 'never early'). Trusted base: harness, tokio, proptest. Weaker evidence than the simulator's.")
 EXTRA = {
- "C17": {"technique": "generated mixes of OS-thread / spawn_blocking / task clients issuing blocking_tell/blocking_ask (with and without timeout), deprecated aliases and async calls against live / slow / gated / full / stopped / dying actors on a multi_thread runtime; delivery, ordering by logical stamps, reply integrity, error kinds, dead-letter multiset, one-sided timeout bounds", "design_ref": "5/C17", "note": RT_NOTE, "engine": "rt"},
+ "C17": {"technique": "generated mixes of OS-thread / spawn_blocking / task clients issuing blocking_tell/blocking_ask (with and without timeout), deprecated aliases and async calls against live / slow / gated / full / stopped / dying actors on a multi_thread runtime; delivery, ordering by logical stamps, reply integrity, error kinds, dead-letter multiset, one-sided timeout bounds; plus race experiments (ask vs end of actor; bursts of blocking / deprecated / async callers released together into a small mailbox; bursts of timeout variants against a parked actor)", "design_ref": "5/C17", "note": RT_NOTE, "engine": "rt"},
 }
 PENDING = {}
 
